@@ -117,6 +117,8 @@ func TestVerifC18Single(t *testing.T) {
 //	           injected publish failures), then the restart: the log suffix after
 //	           the snapshot holds no PUBLISH_ACTIVITY entry
 //	variant 2: several more operations, then the restart
+//	variant 3: no snapshot; the server is stopped while the dispatcher is
+//	           walking a long tail of entries that need no event (bulk > 0)
 //
 // trailing > 0 scales Raft's TrailingLogs (10240 in production, a Raft default
 // Liftbridge does not expose) down so that the snapshot also compacts the log.
@@ -178,6 +180,20 @@ func c18Snapshot(rep *kit.Report, unit string, run int, seed uint64, variant, tr
 		}
 	}
 	e.absorbStore(srv, "a")
+	if variant == 3 {
+		e.step("stop-during-walk(lastPublished=%d,commit=%d)", srv.activity.LastPublishedRaftIndex(), srv.getRaft().getCommitIndex())
+		if !e.restartNode("a") || e.leader() == nil {
+			e.account()
+			return
+		}
+		for i := 0; i < after && !bad(); i++ {
+			e.doOp(e.genOp(1, false))
+		}
+		e.finish(fmt.Sprintf("fence%d", run))
+		c18Stage("done")
+		e.account()
+		return
+	}
 	if trailing > 0 {
 		if err := srv.getRaft().ReloadConfig(raft.ReloadableConfig{TrailingLogs: uint64(trailing), SnapshotInterval: 120 * time.Second,
 			SnapshotThreshold: 8192, HeartbeatTimeout: time.Second, ElectionTimeout: time.Second}); err != nil {
@@ -411,6 +427,10 @@ func TestVerifC18Compaction(t *testing.T) {
 	// unscaled scenarios: Raft's own TrailingLogs, >10240 committed entries
 	for i := 0; i < kit.Scale(1, 2); i++ {
 		specs = append(specs, c18ChildSpec{Run: n + i, Seed: root.Uint64(), Variant: 1, Trailing: 0, Bulk: 3700 + 200*i})
+	}
+	// stop while the dispatcher walks a long tail of PUBLISH_ACTIVITY entries
+	for i := 0; i < kit.Scale(1, 3); i++ {
+		specs = append(specs, c18ChildSpec{Run: len(specs), Seed: root.Uint64(), Variant: 3, Trailing: 0, Bulk: 1200 + 300*i})
 	}
 	n = len(specs)
 	kit.Parallel(n, 4, func(i int) {
